@@ -9,7 +9,9 @@ const NAMES: &[(&str, u32)] = &[
     ("NOOOVBOW", 1 << 30), ("NOOOVBOW2", 1 << 31), ("ALL", 0x3fff_ffff),
 ];
 
-const ANCHORS: &[u32] = &[0, 0x30, 0x41, 0x3040, 0x4e00, 0xd7f0, 0xe000, 0x1f600, 0x10fff0];
+const ANCHORS: &[u32] = &[0, 0x30, 0x41, 0x78, 0xf4, 0x7f8, 0x3040, 0x4e00, 0xd7f0, 0xe000, 0xfff4, 0x1f600, 0x10fff0];
+/// code points next to the sizes a direct look-up table or a narrower integer type would have
+const EDGES: &[u32] = &[0x7f, 0x80, 0xff, 0x100, 0x7ff, 0x800, 0xd7ff, 0xe000, 0xffff, 0x10000, 0x10ffff];
 
 pub struct DefLine {
     pub b: u32,
@@ -119,6 +121,9 @@ distinct by file text + probes".into();
                 }
             }
         }
+        probes.extend(EDGES.iter().copied());
+        // and a point inside every range (a table filled for part of a range shows there)
+        for l in &lines { if l.e > l.b + 1 { let x = l.b + 1 + (rng.below((l.e - l.b - 1) as usize) as u32); if is_scalar(x) { probes.push(x); } } }
         probes.sort();
         probes.dedup();
         let payload = format!("def={} probe={}", hex(text.as_bytes()), join(probes.iter(), ","));
